@@ -1,5 +1,14 @@
 #!/bin/bash
-# builds every Lean library module and every family driver from files on disk (offline)
-set -e
-cd "$(dirname "$0")/lean"
-lake build Drx DrxProofs DrxProps $(grep -o 'name = "drx_[a-z]*"' lakefile.toml | cut -d'"' -f2) 2>&1 | grep -v 'WARNING conda' | tail -5
+# Builds every Lean library module and every family driver from files on disk (offline, no network).
+# A module that fails to build here does not fail the setup: each check rebuilds exactly the modules it needs
+# (stage B) and reports a broken obligation itself.
+cd "$(dirname "$0")/lean" || exit 1
+command -v lake >/dev/null || { echo "lake not found on PATH"; exit 1; }
+TARGETS="Drx DrxProofs DrxProps $(grep -o 'name = "drx_[a-z]*"' lakefile.toml | cut -d'"' -f2)"
+if lake build $TARGETS > .setup.log 2>&1; then
+  tail -1 .setup.log
+else
+  echo "setup: some targets failed to build (see lean/.setup.log); building targets one by one"
+  for t in $TARGETS; do lake build $t >> .setup.log 2>&1 || echo "  failed: $t"; done
+fi
+exit 0
